@@ -23,6 +23,8 @@ def local_names(prog):
     names = set()
     for f in prog["funs"]:
         names.update(f["ps"])
+    for n in rf.nodes(prog, lambda n: n["k"] in ("letd", "ford")):
+        names.update(n["ns"])
     for n in rf.nodes(prog, lambda n: n["k"] in ("let", "for", "lam", "match")):
         if n["k"] in ("let", "for"):
             names.add(n["n"])
@@ -38,7 +40,7 @@ def local_names(prog):
 def run(tier, seed):
     ck = Check("C19", "model_checking", tier, seed)
     rnd = random.Random(seed * 67 + 19)
-    tres, origs = rf.originals(seed + 191, 120 if tier == "quick" else 1200, size=5, err_rate=0.1, only_ok=False)
+    tres, origs = rf.originals(seed + 191, 120 if tier == "quick" else 1200, size=5, err_rate=0.1, only_ok=False, features={"ext": True})
     ck.add_tlc(tres)
     toks = batch("frontend", [{"id": i, "src": s, "tokens": True, "check": False, "format": False} for i, (_, s, _) in enumerate(origs)], timeout_per=2.0)
     jobs, meta = [], []
